@@ -93,7 +93,7 @@ fn row(t: usize, i: usize) -> Option<Ask> {
     let (key, value): ((Option<u64>, Option<u32>, Option<u32>), RawV) = match t {
         0 => {
             let (k, v) = *ls::LANG_ONLY.get(i)?;
-            if k as u128 == crate::oracle::own_pack("und") {
+            if k as u128 == crate::oracle::und_key() {
                 return None; // the bare und key: not reachable by design
             }
             ((Some(k), None, None), v)
@@ -866,6 +866,23 @@ fn outcome_digest(o: &Outcome) -> u64 {
     f.0
 }
 
+pub fn debug_run(seed: u64, run: u64) {
+    let fork = library_process_state().is_some();
+    let (wseed, policy, sseed) = run_params(seed, run);
+    let w = workload(wseed);
+    let o = execute_isolated(&w, policy, sseed, &[], fork);
+    println!("seeded ({}): answers={} wrong={:?} panic={:?} steps={} deviations={}", policy_name(policy), o.answers, o.wrong.first(), o.panic, o.log.picks.len(), o.log.deviations.len());
+    let o2 = execute_isolated(&w, policy, sseed, &[], fork);
+    println!("seeded again: wrong={:?} same picks={}", o2.wrong.first(), o.log.picks == o2.log.picks);
+    let e = execute_isolated(&w, Policy::Explicit, 0, &o.log.deviations, fork);
+    println!("explicit: answers={} wrong={:?} panic={:?} steps={} diverged={} same picks={}", e.answers, e.wrong.first(), e.panic, e.log.picks.len(), e.log.diverged, o.log.picks == e.log.picks);
+    if o.log.picks != e.log.picks {
+        let at = o.log.picks.iter().zip(e.log.picks.iter()).position(|(a, b)| a != b);
+        println!("first difference at step {:?}: seeded {:?} explicit {:?}", at, at.map(|i| &o.log.picks[i.saturating_sub(3)..(i + 3).min(o.log.picks.len())]), at.map(|i| &e.log.picks[i.saturating_sub(3)..(i + 3).min(e.log.picks.len())]));
+        println!("deviations near: {:?}", o.log.deviations.iter().filter(|(s, _)| at.map(|a| (*s as i64 - a as i64).abs() < 4).unwrap_or(false)).collect::<Vec<_>>());
+    }
+}
+
 /// Minimise a failing run: first the schedule (drop deviations from the no-preemption default one
 /// at a time while a violation of the same signature persists), then the workload (drop calls).
 pub struct Minimised {
@@ -941,7 +958,19 @@ pub fn minimise(seed: u64, run: u64, fork: bool, signature: &str) -> Option<Mini
             }
         }
     }
-    w.threads.retain(|t| !t.is_empty());
+    // (a caller left without calls stays in the workload: removing it would renumber the tasks
+    // the deviations name)
+    while w.threads.last().map(|t| t.is_empty()).unwrap_or(false) {
+        let mut cand = w.clone();
+        cand.threads.pop();
+        match fails(&cand, &dev, &mut tests) {
+            Some(o) => {
+                w = cand;
+                best = o;
+            }
+            None => break,
+        }
+    }
     if let Some(o) = fails(&w, &dev, &mut tests) {
         best = o;
     } else {
